@@ -144,6 +144,23 @@ func isRefType(t types.Type) bool {
 }
 
 func (x *Exec) call(st *State, call *ast.CallExpr) []Term {
+	if x.ct == nil || len(x.ct.CallGhost) == 0 {
+		return x.callInner(st, call)
+	}
+	q := ""
+	if fn := x.callee(call); fn != nil {
+		q = funcKey(fn)
+		if fn.Pkg() != nil {
+			q = fn.Pkg().Name() + "." + q
+		}
+	}
+	x.runGhost(st, x.ct.CallGhost["before@"+q], "before@"+q, call)
+	rs := x.callInner(st, call)
+	x.runGhost(st, x.ct.CallGhost["after@"+q], "after@"+q, call)
+	return rs
+}
+
+func (x *Exec) callInner(st *State, call *ast.CallExpr) []Term {
 	c := x.c()
 	// conversion
 	if tv, ok := x.info.Types[call.Fun]; ok && tv.IsType() {
@@ -180,6 +197,11 @@ func (x *Exec) call(st *State, call *ast.CallExpr) []Term {
 		return rs
 	}
 	if fn == nil {
+		if id, ok := ast.Unparen(call.Fun).(*ast.Ident); ok {
+			if lit := x.closures[x.info.Uses[id]]; lit != nil {
+				return x.inlineClosure(st, call, lit)
+			}
+		}
 		// call through a function value: results havocked, closure-assigned variables havocked
 		for _, a := range call.Args {
 			x.expr(st, a)
@@ -328,16 +350,16 @@ func (x *Exec) callWithContract(st *State, call *ast.CallExpr, fn *types.Func, c
 	postEnv := &Env{u: &cu, vars: map[string]Term{}, old: pre}
 	noMod := ct.Pure || (len(ct.Modifies) == 1 && ct.Modifies[0] == "nothing")
 	modifiable := func(name string, t Term) bool {
-		if noMod || !isRefLike(t) {
+		if noMod {
 			return false
-		}
-		if ct.Modifies == nil {
-			return true
 		}
 		for _, m := range ct.Modifies {
 			if m == name {
-				return true
+				return true // explicitly listed (also slices: element writes visible to the caller)
 			}
+		}
+		if ct.Modifies == nil && isRefLike(t) {
+			return true
 		}
 		return false
 	}
@@ -573,7 +595,7 @@ func (x *Exec) builtin(st *State, call *ast.CallExpr, name string) []Term {
 		case KMap:
 			r = c.mapCard(v)
 		case KStr:
-			r = app(sortInt, "str.len", v)
+			r = app(sortInt, "gs.len", v)
 		default:
 			x.abstractNote(call, name+" of "+v.Sort.Name+" (havocked)")
 			r = c.fresh(name, sortInt)
